@@ -134,6 +134,23 @@ def long_texts(run):
             if not ifs or not (ifs[0].get("if") or {}).get("then", "").startswith("{ emit(0);") or len(ifs[0]["if"]["then"]) != len(s2) - len("if (first > 0) "):
                 run.violation("C06:IfStmt:then", "the then-branch of %d bytes is not reported whole (reported %s bytes)" %
                               (len(s2) - len("if (first > 0) "), len((ifs[0].get("if") or {}).get("then", "")) if ifs else None), dict(size=size, generator="checks/c06.py long_texts"))
+        # jumps out of nested labelled statements: the label is the one written in the jump
+        lab = ("class J {\n  void m(int n) {\n    outer:\n    for (int i = 0; i < n; i++) {\n      middle:\n      for (int j = 0; j < n; j++) {\n        inner:\n        while (j < n) {\n"
+               "          if (i == 1) { break outer; }\n          if (i == 2) { continue outer; }\n          if (i == 3) { break middle; }\n          if (i == 4) { continue middle; }\n"
+               "          if (i == 5) { break inner; }\n          if (i == 6) { continue inner; }\n          if (i == 7) { break; }\n          if (i == 8) { continue; }\n          j++;\n        }\n      }\n    }\n  }\n}\n").encode()
+        real = S.real_build(h, lab, "j/J.java", timeout=120)
+        run.count(("nested-labels", 1))
+        if real.get("outcome") == "ok":
+            for x in real["nodes"]:
+                if x["type"] in ("BreakStmt", "ContinueStmt"):
+                    key = "break" if x["type"] == "BreakStmt" else "continue"
+                    words = x["snippet"].rstrip(";").split()
+                    want = words[1] if len(words) > 1 else ""
+                    got = (x.get(key) or {}).get("label") or ""
+                    if got != want:
+                        run.violation("C06:%s:label" % x["type"], "`%s` at line %d inside three nested labelled statements is reported with label %r" % (x["snippet"], x["line"], got),
+                                      dict(source=lab.decode(), line=x["line"], generator="checks/c06.py long_texts"))
+                        break
         # literal arguments whose content begins or ends with an escaped quote, is empty, or is one escaped quote
         lits = ['\\"quoted\\"', 'ends with \\"', '\\"starts', '\\"', '', 'a\\"b', '\\\\', 'tab\\t', "it's", '\\"\\"']
         src = ("class Q {\n  void m() {\n" + "".join('    log("%s", %d);\n' % (l, i) for i, l in enumerate(lits)) + "  }\n  void log(String a, int b) { }\n}\n").encode()
